@@ -758,7 +758,7 @@ def end_of_last_frame(data: bytes) -> int:
 
 def check_C13(tier: str, seed: int) -> int:
     v = Verdict("C13", tier, seed, "proof")
-    ob = vplib.check_obligations("C13", expected=["C13_truncation"], extra_files=["C13_e2e"] if os.path.exists(os.path.join(vplib.COQ, "Props", "C13_e2e.v")) else ())
+    ob = vplib.check_obligations("C13", expected=["C13_truncation", "C13_extension", "C13_prefix_classified", "C13_prefix_never_other"], extra_files=["C13_e2e"] if os.path.exists(os.path.join(vplib.COQ, "Props", "C13_e2e.v")) else ())
     vplib.build_harness(["release"])
     w = Work("C13")
     try:
